@@ -99,7 +99,11 @@ async def authenticate(username: str, password: str) -> PWUser:
     """
     global PW_FILE_LAST_TIMESTAMP
     mtime = await aiofiles.os.path.getmtime(PW_FILE_LOCATION)
-    if mtime > PW_FILE_LAST_TIMESTAMP:
+    # NOTE: Any other timestamp, not just a later one: a password file that is
+    #       moved into place (or restored from a backup) keeps its own, older,
+    #       mtime, and the passwords it replaces must stop working.
+    #
+    if mtime != PW_FILE_LAST_TIMESTAMP:
         logger.info(
             "Reading password file due to last modified: %s", PW_FILE_LOCATION
         )
